@@ -167,6 +167,13 @@ var c19Alphabet = []string{
 }
 
 func c19Run(t *testing.T, h []int) (res seqx.Result) {
+	// A goroutine of the code under test that can never finish keeps the bubble from ending; synctest reports
+	// that as a panic on this goroutine. It is a finding (something blocks forever), not an infrastructure failure.
+	defer func() {
+		if p := recover(); p != nil && res.Viol == "" {
+			res.Viol, res.Desc = "goroutine-blocked-forever", fmt.Sprintf("after the history and shutdown a goroutine of the gossip code never finishes: %v", p)
+		}
+	}()
 	synctest.Test(t, func(t *testing.T) {
 		defer func() {
 			if r := recover(); r != nil {
